@@ -7938,9 +7938,10 @@ void TraverseSchema::checkAttDerivationOK(const DOMElement* const elem,
                 reportSchemaError(elem, XMLUni::fgXMLErrDomain, XMLErrs::BadAttDerivation_4, childLocalPart);
             }
         }
-        // Constraint 2.2
-        else if (!baseAttWildCard ||
-                 !wildcardAllowsNamespace(baseAttWildCard, childAttName->getURI())) {
+        // Constraint 2.2 (a prohibited declaration is no attribute use: nothing to check)
+        else if (childAttDef.getDefaultType() != XMLAttDef::Prohibited &&
+                 (!baseAttWildCard ||
+                  !wildcardAllowsNamespace(baseAttWildCard, childAttName->getURI()))) {
             reportSchemaError(elem, XMLUni::fgXMLErrDomain, XMLErrs::BadAttDerivation_5, childLocalPart);
         }
     }
